@@ -168,4 +168,69 @@ theorem eventsList_sorted : ∀ (ts : List Tree) (base : Bytes), wfList ts = tru
       (hw'.2.1 u hu) (fun hd => ho'.2.1 hd u hu) ha hbu
 end
 
+/-! ### the converse: ascending event paths force order compatibility -/
+
+theorem eventsList_of_mem : ∀ (ts : List Tree) (base : Bytes) (u : Tree), u ∈ ts →
+    ∀ p ∈ eventsNode base u, p ∈ eventsList base ts
+  | [], _, _, h, _, _ => by simp at h
+  | t :: ts, base, u, h, p, hp => by
+    simp only [eventsList, List.mem_append]
+    rcases List.mem_cons.1 h with rfl | h
+    · exact Or.inl hp
+    · exact Or.inr (eventsList_of_mem ts base u h p hp)
+
+/-- the node's own event -/
+theorem eventsNode_own (base : Bytes) (u : Tree) :
+    ∃ r, (r = [] ∨ r = [slash]) ∧ (base ++ u.name ++ r) ∈ eventsNode base u := by
+  cases u with
+  | file n => exact ⟨[], Or.inl rfl, by simp [eventsNode, Tree.name]⟩
+  | dir n cs => exact ⟨[slash], Or.inr rfl, by simp [eventsNode, Tree.name]⟩
+
+mutual
+theorem oc_of_eventsNode_sorted : ∀ (t : Tree) (base : Bytes),
+    (eventsNode base t).Pairwise (fun a b => blt a b = true) → ocNode t = true
+  | .file _, _, _ => by simp [ocNode]
+  | .dir n cs, base, h => by
+    simp only [eventsNode] at h
+    have := oc_of_eventsList_sorted cs _ (List.pairwise_cons.1 h).2
+    simpa [ocNode] using this
+theorem oc_of_eventsList_sorted : ∀ (ts : List Tree) (base : Bytes),
+    (eventsList base ts).Pairwise (fun a b => blt a b = true) → ocList ts = true
+  | [], _, _ => by simp [ocList]
+  | t :: ts, base, h => by
+    simp only [eventsList] at h
+    rw [List.pairwise_append] at h
+    obtain ⟨h1, h2, hcross⟩ := h
+    rw [ocList_cons]
+    refine ⟨oc_of_eventsNode_sorted t base h1, ?_, oc_of_eventsList_sorted ts base h2⟩
+    intro hd u hu
+    cases hb : badExt t.name u.name with
+    | false => rfl
+    | true =>
+      exfalso
+      unfold badExt at hb
+      simp only [Bool.and_eq_true] at hb
+      obtain ⟨hp, hch⟩ := hb
+      obtain ⟨w, hw⟩ := (isPrefixOf_iff _ _).1 hp
+      rw [← hw] at hch
+      simp only [List.drop_left'] at hch
+      cases w with
+      | nil => simp at hch
+      | cons ch w' =>
+        simp only [decide_eq_true_eq] at hch
+        -- t's own event `base ++ t.name ++ "/"` against u's own event
+        have ht : (base ++ t.name ++ [slash]) ∈ eventsNode base t := by
+          cases t with
+          | file n => simp [Tree.isDir] at hd
+          | dir n cs => simp [eventsNode, Tree.name]
+        obtain ⟨r, _, hr⟩ := eventsNode_own base u
+        have := hcross _ ht _ (eventsList_of_mem ts base u hu _ hr)
+        rw [← hw] at this
+        have e : base ++ (t.name ++ ch :: w') ++ r = base ++ t.name ++ (ch :: (w' ++ r)) := by simp
+        rw [e, blt_append_left, blt_cons_cons] at this
+        have h1 : ¬ slash < ch := UInt8.lt_asymm hch
+        have h2 : slash ≠ ch := fun e => by rw [e] at hch; exact UInt8.lt_irrefl _ hch
+        simp [h1, h2] at this
+end
+
 end Vgw.Model.Walk
